@@ -64,7 +64,8 @@ def first_repo_frame(text, repo="/repo/"):
         if not m:
             continue
         fn, path = m.group(1), m.group(2)
-        if "/repo/opm/" in path or "/repo/msim/" in path or path.startswith(repo + "opm"):
+        root = os.environ.get("VERIF_REPO", "/repo").rstrip("/")
+        if (root + "/opm/") in path or (root + "/msim/") in path:
             return _strip_args(fn)
     return None
 
